@@ -206,6 +206,7 @@ func (c *Client) HandlePresence(p stanza.Presence, r xmlstream.TokenReadEncoder)
 			verifYield("presence.handoff", p.From.String())
 			select {
 			case c.j <- p.From:
+				channel.joined = true
 				return nil
 			case <-c.done:
 				// If the call to Join has timed out, try again to see if we have a
@@ -219,6 +220,7 @@ func (c *Client) HandlePresence(p stanza.Presence, r xmlstream.TokenReadEncoder)
 			c.HandleUserPresence(decodedPresence.Presence, decodedPresence.X.Item)
 		}
 	case stanza.UnavailablePresence:
+		channel.joined = false
 		delete(c.managed, channel.addr.String())
 		verifYield("presence.depart", p.From.String())
 		select {
